@@ -66,11 +66,11 @@ def run(ctx):
     lemmas(ctx)
     q = ctx.tier == 'quick'
     tasks = [
-        dict(fn='ints', kw=dict(vmax=70 if q else 300, bwmax=8 if q else 10)),
+        dict(fn='ints', kw=dict(vmax=70 if q else 1200, bwmax=8 if q else 12)),
         dict(fn='verilog_wellformed', kw=dict(wmax=5 if q else 7)),
         dict(fn='verilog_all_strings', kw=dict(maxlen=4 if q else 5)),
-        dict(fn='signed_and_formats', kw=dict(bwmax=8 if q else 10)),
-        dict(fn='twos_comp', kw=dict(bwmax=7 if q else 9)),
+        dict(fn='signed_and_formats', kw=dict(bwmax=8 if q else 11)),
+        dict(fn='twos_comp', kw=dict(bwmax=7 if q else 11)),
         dict(fn='bitpatterns', kw=dict(maxlen=4 if q else 6, sample=None if q else 3)),
     ]
     res = passcheck.pmap(_call, tasks)
